@@ -186,6 +186,7 @@ class State:
         self.nforks = 0
         self.park_key = None
         self.stop = None
+        self.exiting = set()
 
     def fork(self):
         s = State.__new__(State)
@@ -217,6 +218,7 @@ class State:
         s.nforks = self.nforks
         s.park_key = None
         s.stop = self.stop
+        s.exiting = set(self.exiting)
         return s
 
     # ---- objects
@@ -1059,7 +1061,8 @@ class Engine:
         for s in group:
             sig = (tuple((f.fn.name, f.block, f.idx, tuple(f.allocas)) for f in s.frames),
                    tuple(sorted(k for k, v in s.live.items() if v)), s.thread,
-                   tuple(sorted((t, tuple(v)) for t, v in s.tls_dtors.items())))
+                   tuple(sorted((t, tuple(v)) for t, v in s.tls_dtors.items())), tuple(sorted(s.exiting)),
+                   tuple(sorted(s.tls_inst.items())))
             buckets.setdefault(sig, []).append(s)
         out = []
         for sig, states in buckets.items():
